@@ -5,7 +5,7 @@ from core import call_matches, call_names, op_place, op_local, backward_slice
 from props import C02, shared
 
 LEVEL = 'other'
-FLOOR = 18
+FLOOR = 44      # 70% of the 64 obligation instances derived on the tree the rules were last reviewed against
 EXPLANATION = ('Representability: every usize->u8 narrowing of a child count on the packing path is guarded by a range check whose failing edge is an error '
                'exit, or lies in a function only reached after such a check; packing and the two unpackers agree on count-last / 8-byte little-endian '
                'addresses and on their error checks; the dereference walk takes the tree write guard and reads a node\'s children before it can free it; '
